@@ -96,6 +96,12 @@ M = [
  ("repetition-board-passes-other-turn", "src/board/mod.rs", "        self.position_info.count_current_position(self.turn)", "        self.position_info.count_current_position(self.turn.opposite())", "violation", ["C17"]),
  ("benign-repetition-get-copied", "src/board/position_info.rs", "        let count = *self.position_count.get(&key).unwrap();\n        self.max_seen_position_count_stack.push(count);\n        count", "        let count = *self.position_count.get(&key).unwrap();\n        let reported = count;\n        self.max_seen_position_count_stack.push(reported);\n        reported", "ok", ["C17"]),
  ("game-forgets-history", "src/game/game.rs", "            Ok(_capture) => {\n                self.save_move(chess_move.clone());\n                Ok(())", "            Ok(_capture) => {\n                Ok(())", "violation", ["C17"]),
+ # ---- the parallel perft entry point (C10, rule R20)
+ ("perft-root-wrong-depth", "src/move_generator/mod.rs", "            let local_count = count_positions_inner(\n                depth - 1,", "            let local_count = count_positions_inner(\n                depth,", "violation", ["C10"]),
+ ("perft-root-forgets-initial-count", "src/move_generator/mod.rs", "        initial_count + inner_counts.sum::<usize>()", "        inner_counts.sum::<usize>()", "violation", ["C10"]),
+ ("perft-root-same-colour", "src/move_generator/mod.rs", "        let next_player = player.opposite();", "        let next_player = player;", "violation", ["C10"]),
+ ("benign-perft-root-no-undo", "src/move_generator/mod.rs", "            chess_move.undo(&mut local_board).unwrap();\n            local_count\n", "            local_count\n", "ok", ["C10"]),
+ ("perft-inner-forgets-undo", "src/move_generator/mod.rs", "        count += count_positions_inner(depth - 1, board, next_color, move_generator);\n        chess_move.undo(board).unwrap();\n", "        count += count_positions_inner(depth - 1, board, next_color, move_generator);\n", "violation", ["C10"]),
  # ---- evaluation (C18 C16)
  ("black-uses-white-index", "src/evaluate/mod.rs", "        Color::Black => SQUARE_TO_BLACK_BONUS_INDEX,", "        Color::Black => SQUARE_TO_WHITE_BONUS_INDEX,", "violation", ["C18"]),
  ("mate-score-ignores-depth-sign", "src/evaluate/mod.rs", "                BLACK_WINS - remaining_depth as i16", "                BLACK_WINS + remaining_depth as i16", "violation", ["C18"]),
